@@ -577,9 +577,10 @@ def runFrom : Nat → List PS → List Char → List Emit × Term
     | .err => ([], .err)
     | .panic => ([], .panic)
 
-/-- Every successful step consumes a character or pops a frame, so `3 * length + 8` steps are plenty; running out
-of fuel is a distinct outcome (`fuel`), never confused with a verdict. -/
-def run (inp : List Char) : List Emit × Term := runFrom (3 * inp.length + 8) [.init] inp
+/-- Every successful step consumes a character or pops a frame, so `12 * length + 8` steps are plenty (the proofs about
+printer output use at most `4 * size ≤ 8 * length + 4`); running out of fuel is a distinct outcome (`fuel`), never
+confused with a verdict. -/
+def run (inp : List Char) : List Emit × Term := runFrom (12 * inp.length + 8) [.init] inp
 
 /-- The items `ParseIterator` yields: the events, then `Some(Err(_))` if the stream ended in an error. -/
 def eventsOf (r : List Emit × Term) : List Event × Term := (r.1.map (·.ev), r.2)
@@ -1138,7 +1139,7 @@ def implicitLook : Nat → Nat → List Event → Bool
 as the source says (`implicitByStructure`). -/
 def isImplicitRecord (inp : List Char) : Bool :=
   if implicitByStructure then
-    implicitLook 0 0 ((runFrom (3 * inp.length + 8) [.body .ab .startOrNl, .init] inp).1.map (·.ev))
+    implicitLook 0 0 ((runFrom (12 * inp.length + 8) [.body .ab .startOrNl, .init] inp).1.map (·.ev))
   else implicitScan (inp.length + 1) none inp
 
 /-- The `while let Some(event_or_end) = events.take_event()` body of `HashParser::hash`. -/
